@@ -851,6 +851,7 @@ func (h txHarness) Run(spec any) (res verifsim.RunResult) {
 	}
 	ep := runEpisode(epCfg{sp: &sp, seed: sp.Seed, src: src, out: out, faultFree: true})
 	fillRes(&res, ep)
+	res.Sample = map[string]any{"spec": sp, "outcome": ep.outcome.String(), "sender": errStr(ep.sendErr), "receiver": errStr(ep.recvErr), "steps": ep.steps, "simulated": ep.sim.String()}
 	v := func(class, sig, detail string) {
 		res.Violations = append(res.Violations, &verifsim.Violation{Class: class, Signature: sig, Detail: detail, LogHash: verifsim.HashStr(ep.hash), Steps: ep.steps, Trace: ep.log})
 	}
